@@ -126,6 +126,14 @@ package flow
 //@ spec func waiting(r) = r != nil && r.status == base.ResultStatusShouldWait
 //@ func (c *ThrottlingChecker) DoCheck(resStat, batchCount, threshold) r
 //@   props C10
+// C10 "for any interleaving of concurrent callers", thread-modular part: whatever other callers do to the shared
+// timestamp between this caller's atomic accesses, each of its own writes either claims the present for an idle
+// checker (CAS from a value whose slot has passed) or moves the timestamp by exactly one interval — forward to book its
+// slot, backward to give exactly that slot back; it never overwrites the timestamp with a value computed from a stale read
+//@   concurrent C10 and sequential
+//@   shared c.lastPassedTime
+//@   onwrite[claims-now-or-moves-by-one-interval]{C10} c.lastPassedTime: 0 <= prev && prev < 4611686018427387904 && ok ==> (new == clock_ns && R(prev) + I <= R(clock_ns)) || R(new) == R(prev) + I || R(new) == R(prev) - I
+//@   ensures[wait-within-the-queueing-limit]{C10} waiting(r) ==> 0 <= r.nanosToWait && r.nanosToWait <= c.maxQueueingTimeNs
 //@   requires c != nil && c.statIntervalNs > 0 && c.statIntervalNs <= 4294967295000000 && c.maxQueueingTimeNs >= 0 && c.maxQueueingTimeNs <= 4294967295000000
 //@   requires c.lastPassedTime >= 0 && c.lastPassedTime < 4611686018427387904
 //@   let last0 = c.lastPassedTime
@@ -172,7 +180,7 @@ package flow
 //@ func (c *WarmUpTrafficShapingCalculator) CalculateAllowedTokens(batchCount, flag) r
 //@   props C11
 //@   requires c != nil && c.owner != nil && wuInv(c) && c.owner.boundStat.readOnlyMetric != nil
-//@   requires 0 <= c.storedTokens && c.storedTokens <= c.maxToken
+//@   requires 0 <= c.storedTokens && c.storedTokens <= c.maxToken && c.lastFilledTime < 4611686018427387904
 //@   ensures[bounds] 0.0 < r && r <= c.threshold
 //@   ensures[tokens] 0 <= c.storedTokens && c.storedTokens <= c.maxToken
 //@   ensures[above-warning] c.storedTokens >= c.warningToken ==> r == 1.0 / (R(c.storedTokens - c.warningToken) * c.slope + 1.0 / c.threshold)
@@ -193,7 +201,24 @@ package flow
 //@   ensures[saturating-demand-does-not-refill-a-cold-bucket] c.storedTokens > c.warningToken && passQps >= R(trunc(c.threshold) / c.coldFactor) ==> r == c.storedTokens
 //@   ensures[at-the-warning-line-unchanged] c.storedTokens == c.warningToken ==> r == c.storedTokens
 //@   ensures[never-drains-here] r >= c.storedTokens
+// the refill itself: below the warning line (and above it under light demand) the bucket gains threshold tokens per
+// second of the time that has passed SINCE THE LAST FILL, capped at maxToken
+//@   ensures[refill-by-elapsed-time-below-the-warning-line] c.storedTokens < c.warningToken && currentTime - c.lastFilledTime <= 86400000 ==> r == min(c.maxToken, trunc(R(c.storedTokens) + R(currentTime - c.lastFilledTime) * c.threshold / 1000.0))
 //@   modifies nothing
+
+// once per second the bucket is refilled for the time since the last fill and charged with the previous second's
+// traffic; only then is the fill time advanced (a fill time advanced BEFORE the refill makes the elapsed time zero:
+// the bucket never refills and an idle resource restarts at the full threshold)
+//@ func (c *WarmUpTrafficShapingCalculator) syncToken(passQps)
+//@   props C11
+//@   requires c != nil && wuInv(c) && 0 <= c.storedTokens && c.storedTokens <= c.maxToken && passQps >= 0.0
+//@   requires c.lastFilledTime < 4611686018427387904
+//@   let sec = clock_ms
+//@   ensures[same-second-nothing-happens] clock_ms - clock_ms % 1000 <= old(c.lastFilledTime) ==> c.storedTokens == old(c.storedTokens) && c.lastFilledTime == old(c.lastFilledTime)
+//@   ensures[new-second-advances-the-fill-time] clock_ms - clock_ms % 1000 > old(c.lastFilledTime) ==> c.lastFilledTime == clock_ms - clock_ms % 1000
+//@   ensures[idle-bucket-refills-for-the-whole-idle-time] clock_ms - clock_ms % 1000 > old(c.lastFilledTime) && old(c.storedTokens) < c.warningToken && clock_ms - old(c.lastFilledTime) <= 86400000 ==> c.storedTokens == max(0, min(c.maxToken, trunc(R(old(c.storedTokens)) + R(clock_ms - clock_ms % 1000 - old(c.lastFilledTime)) * c.threshold / 1000.0)) - trunc(passQps))
+//@   ensures[bounds-kept] 0 <= c.storedTokens && c.storedTokens <= c.maxToken
+//@   modifies c.storedTokens, c.lastFilledTime
 
 // cold start: a full bucket yields threshold/coldFactor when the slope is the one the constructor computes
 //@ lemma warmup-cold-start {C11}: forall thr Real :: forall cf Int :: forall mx Int :: forall wn Int :: thr > 0.0 && cf >= 2 && mx > wn ==> 1.0 / (R(mx - wn) * (R(cf - 1) / thr / R(mx - wn)) + 1.0 / thr) == thr / R(cf)
